@@ -59,7 +59,19 @@ impl PostConversionLinter for BuiltInLinter {
                 self.visit_expression(left)?;
                 self.visit_expression(right)
             }
-            Expression::UnaryExpression(_, child) => self.visit_expression(child),
+            Expression::UnaryExpression(_, child) | Expression::Parenthesis(child) => {
+                self.visit_expression(child)
+            }
+            Expression::FunctionCall(_, args) | Expression::ArrayElement(_, args, _) => {
+                self.visit_expressions(args)
+            }
+            Expression::Property(left, _, _) => {
+                // the left side might be an array element with arguments
+                match left.as_ref() {
+                    Expression::ArrayElement(_, args, _) => self.visit_expressions(args),
+                    _ => Ok(()),
+                }
+            }
             _ => Ok(()),
         }
     }
